@@ -382,6 +382,51 @@ def run_rules(rep, repo):
                           f'the rule at line {r["line"]} builds the insertion path as `{render_t(sl)[:90]}`: not header path followed by key segments, so under a '
                           f'`[header]` the value lands at a different place than the parser puts it', f'{file}:{r["line"]}')
 
+    # ---- R7b: a header rule creates the table at the path it then hands on as the context of the following keys
+    R7b = rep.rule('C19/R7b', 'header context = header path: in every rule that creates a table / array element for a `[header]` / `[[header]]` (insert_toml / push_toml) and '
+                   'continues the muncher, the `[..]` context handed to the continuation is token for token the `&[..]` path given to the helper', floor=2)
+    header_helpers = set()
+    for idx, r in enumerate(parsed):
+        ts = list(r['t'])
+        for e in r['t']:
+            if e[0] == 'g' and e[1] == '{':
+                ts += list(e[2])
+        if ('lit', '=') in r['m']:
+            continue
+        helper_paths = []
+        helpers = []
+        for i, e in enumerate(ts):
+            if e[0] == 'lit' and e[1].endswith('_toml') and i + 1 < len(ts) and ts[i + 1][0] == 'g' and i >= 2 and ts[i - 1] == ('lit', ':') and ts[i - 2] == ('lit', ':'):
+                args = list(ts[i + 1][2])
+                helper_paths += [a[2] for j, a in enumerate(args) if a[0] == 'g' and a[1] == '[' and j > 0 and args[j - 1] == ('lit', '&')]
+                helpers.append(e[1])
+        header_helpers.update(helpers)
+        conts = [c for c in muncher_calls(ts)]
+        ctxs = [x[2] for c in conts for x in c[2] if x[0] == 'g' and x[1] == '[']
+        if not helper_paths or not ctxs:
+            continue
+        ok = len(helper_paths) == 1 and len(ctxs) == 1 and tuple(helper_paths[0]) == tuple(ctxs[0])
+        rep.check(R7b, f'@{r["state"]}#{idx}|context', ok, 'continuation context == helper path', f'the header rule at line {r["line"]} creates the table at `{render_t(list(helper_paths[0]))[:70]}` but '
+                  f'continues with the context `{render_t(list(ctxs[0]))[:70]}`: the keys under this header land in a different table than the one just created', f'{file}:{r["line"]}')
+
+    # ---- R7c: the run-time helper behind a header keeps what is already at the path
+    R7c = rep.rule('C19/R7c', 'a header opens the table at its path without discarding it: the helper a `[header]` / `[[header]]` rule calls assigns to the slot reached by `traverse` '
+                   'only under a test of what is there (`if !target.is_table()` / `is_array()`), because a sub-table header may have created it already (`[a.b]` .. `[a]` is '
+                   'valid TOML and the parser merges the two)', floor=2)
+    facts = Facts('default')
+    for h in sorted(header_helpers):
+        d = 'toml::macros::' + h
+        if not facts.has_body(d):
+            rep.incomplete(R7c, h, f'helper `{d}` not found')
+            continue
+        hb = facts.body(d)
+        from .shared import conditions_above
+        stores = [n for n in walk(hb['body']) if n.get('k') == 'assign' and peel(n['lhs']).get('k') in ('path', 'unary', 'call', 'mcall') and
+                  ((n['lhs'].get('k') == 'unary' and n['lhs'].get('op') == '*') or any(x.get('k') == 'call' and last_seg((peel(x.get('f', {})).get('path') or '')) == 'traverse' for x in walk(n['lhs'])))]
+        uncond = [n for n in stores if not conditions_above(hb['body'], n)]
+        rep.check(R7c, h, not uncond, f'{len(stores)} guarded store(s) into the traversed slot', f'`{d}`, called for a table header, overwrites whatever is at the header path unconditionally: '
+                  f'`[a.b]` followed by `[a]` loses `a.b`, while parsing the same text keeps it', facts.loc(hb))
+
     # ---- R8: a rule that re-dispatches `key = <rewritten value>` re-emits the key exactly as matched
     R8 = rep.rule('C19/R8', 'key conservation: every rule that matches `key = ..` and continues the muncher with a rewritten value re-emits the key tokens '
                   'exactly as it matched them (same fragments, same `-` / `.` separators at the same nesting), so dotted and hyphenated keys keep their shape', floor=20)
